@@ -188,6 +188,15 @@ func (m *CLIManager) Install(ctx context.Context, installOpts CLIInstallOptions)
 			}
 		}
 	}
+	pluginDirPath, err := m.pluginFS.SysPath(pluginName)
+	if err != nil {
+		return nil, nil, fmt.Errorf("failed to get the system path of plugin %s: %w", pluginName, err)
+	}
+	// the clean up below removes the plugin directory, so the plugin cannot
+	// be installed from its own installation directory
+	if isSameDir(filepath.Dir(pluginExecutableFile), pluginDirPath) {
+		return nil, nil, fmt.Errorf("failed to install plugin %s: the source %s is the installed plugin", pluginName, installOpts.PluginPath)
+	}
 	// clean up before installation, this guarantees idempotent for install
 	if err := m.Uninstall(ctx, pluginName); err != nil {
 		if !errors.Is(err, os.ErrNotExist) {
@@ -195,10 +204,6 @@ func (m *CLIManager) Install(ctx context.Context, installOpts CLIInstallOptions)
 		}
 	}
 	// core process
-	pluginDirPath, err := m.pluginFS.SysPath(pluginName)
-	if err != nil {
-		return nil, nil, fmt.Errorf("failed to get the system path of plugin %s: %w", pluginName, err)
-	}
 	if installFromNonDir {
 		if err := file.CopyToDir(pluginExecutableFile, pluginDirPath); err != nil {
 			return nil, nil, fmt.Errorf("failed to copy plugin executable file from %s to %s: %w", pluginExecutableFile, pluginDirPath, err)
@@ -225,6 +230,20 @@ func (m *CLIManager) Uninstall(ctx context.Context, name string) error {
 		return err
 	}
 	return os.RemoveAll(pluginDirPath)
+}
+
+// isSameDir reports whether the paths a and b name the same existing
+// directory.
+func isSameDir(a, b string) bool {
+	aInfo, err := os.Stat(a)
+	if err != nil {
+		return false
+	}
+	bInfo, err := os.Stat(b)
+	if err != nil {
+		return false
+	}
+	return os.SameFile(aInfo, bInfo)
 }
 
 // validatePluginName checks that name is a single path component, so that
